@@ -149,13 +149,20 @@ class Matcher:
         return self.go(self.push((self.term, BREAK, 0, 0), None), 0)
 
     def relax(self, stack):
+        """lenient only: a bare hardline was rendered inside a flat scope (a group or a fill item laid out flat because the
+        engine's look-ahead stops at a hardline). Everything that is still pending of the enclosing flat scopes becomes
+        unconstrained (mode ANY, no forcing obligation)."""
         frames = []
         node = stack
-        while node is not None and node[0][3] > 0:
+        while node is not None:
             frames.append(node[0])
             node = node[1]
+        node = None
         for (t, mode, ind, fl) in reversed(frames):
-            node = self.push((t, ANY if mode == FLAT else mode, ind, 0), node)
+            if mode == FLAT or fl > 0:
+                node = self.push((t, ANY if mode == FLAT else mode, ind, 0), node)
+            else:
+                node = self.push((t, mode, ind, fl), node)
         return node
 
     def go(self, stack, pos):
@@ -194,10 +201,10 @@ class Matcher:
                 self.dead.add(key)
                 return False
             if k == 'hardline':
-                if fl > 0:
-                    if self.strict:
-                        self.dead.add(key)
-                        return False
+                if fl > 0 and self.strict:
+                    self.dead.add(key)
+                    return False
+                if not self.strict and (fl > 0 or mode != BREAK):
                     self.used_lenient = True
                     rest = self.relax(rest)
                 if pos < len(items) and items[pos] == ('nl', ind):
